@@ -258,12 +258,12 @@ def _enum_items(ctx):
 def _all_jobs(ctx, model, scale=1):
     items = _enum_items(ctx)
     jobs = []
-    per = 3000
+    per = ctx.pick(750, 2000)
     for lo in range(0, len(items), per):
         jobs.append({'seed': '%s/%d/enum/%d' % (ID, ctx.seed, lo), 'n': min(per, len(items) - lo), 'lo': lo,
                      'items': items[lo:lo + per], 'gen': _gen_enum, 'oracle': _oracle, 'nontrivial': _nontrivial,
                      'finds': _finds, 'model': model, 'tols': (0, 1) if lo % (2 * per) == 0 else (0,)})
-    for k, n in enumerate(L.split(ctx.pick(12000, 150000) * scale, 3000)):
+    for k, n in enumerate(L.split(ctx.pick(12000, 150000) * scale, ctx.pick(750, 2000))):
         jobs.append({'seed': '%s/%d/rand/%d' % (ID, ctx.seed, k), 'n': n, 'gen': _gen_random, 'oracle': _oracle,
                      'nontrivial': _nontrivial, 'finds': _finds, 'model': model, 'tols': (0, 1)})
     for k, n in enumerate(L.split(ctx.pick(2500, 40000) * scale, ctx.pick(125, 400))):
